@@ -33,6 +33,32 @@ GROUPS = {
 }
 
 
+# Known finding F-C10-3: these memoised accessors read ``_location``, which the collection constructors re-assign IN PLACE on
+# their children (``_reset_parent`` / ``_liftover_this_location_to_seq_chunk_parent``) without invalidating the
+# per-object caches: ``tx.has_sequence`` asked before ``GeneInterval([tx], parent_or_seq_chunk_parent=P)`` stays False
+# afterwards while a fresh twin says True.  The list is the set of sites on the pinned tree (never extended at run
+# time): a NEW memoised accessor over a re-assignable field is reported as a violation.
+_R = "frame:memoised-accessor-reads-only-construction-time-fields"
+STALE_MEMO_SITES = {f"{q}/{_R}": "F-C10-3" for q in (
+    "gene.cds.CDSInterval._prepare_multi_exon_window_for_scan_codon_locations",
+    "gene.cds.CDSInterval._prepare_single_exon_window_for_scan_codon_locations",
+    "gene.cds.CDSInterval.chromosome_codon_locations",
+    "gene.cds.CDSInterval.chunk_relative_codon_locations",
+    "gene.cds.CDSInterval.extract_sequence",
+    "gene.cds.CDSInterval.has_in_frame_stop",
+    "gene.cds.CDSInterval.translate",
+    "gene.interval.AbstractFeatureInterval._chunk_relative_bounded_chromosome_location",
+    "gene.interval.AbstractFeatureInterval.chunk_relative_gaps_location",
+    "gene.interval.AbstractFeatureInterval.chunk_relative_span",
+    "gene.interval.AbstractFeatureInterval.get_genomic_sequence",
+    "gene.interval.AbstractFeatureInterval.get_reference_sequence",
+    "gene.interval.AbstractFeatureInterval.get_spliced_sequence",
+    "gene.interval.AbstractInterval._chunk_relative_bounded_chromosome_location",
+    "gene.interval.AbstractInterval.has_sequence",
+    "gene.transcript.TranscriptInterval.get_transcript_sequence",
+)}
+
+
 def _mk(props, classes):
     class Frame(Case):
         pass
@@ -41,7 +67,7 @@ def _mk(props, classes):
     c.name = "frame conditions (no hidden state) on the classes this property runs through: " + ", ".join(
         x.split(".")[-1] for x in classes)
     c.func = classes[0] + ".__init__"
-    c.static = dict(classes=classes, kinds=("frame", "identity", "kind"), accepted={})
+    c.static = dict(classes=classes, kinds=("frame", "identity", "kind"), accepted={}, known=dict(STALE_MEMO_SITES))
     return c
 
 
